@@ -91,6 +91,15 @@ impl TickDelta {
         self.emit_with_origin(op, origin);
     }
 
+    /// Moves every operation of `other` (with its origin metadata) to the end of this delta.
+    #[cfg(any(debug_assertions, feature = "footprint_enforce_release"))]
+    #[cfg(not(feature = "unsafe_graph"))]
+    pub(crate) fn append(&mut self, mut other: Self) {
+        self.ops.append(&mut other.ops);
+        #[cfg(any(test, feature = "delta_validate"))]
+        self.origins.append(&mut other.origins);
+    }
+
     /// Returns the number of collected operations.
     #[must_use]
     pub fn len(&self) -> usize {
